@@ -3,8 +3,8 @@
 package tun
 
 import (
-	"time"
 	"testing"
+	"time"
 
 	"pgregory.net/rapid"
 	"verif/harness/common"
@@ -35,6 +35,6 @@ func TestC17B(t *testing.T) {
 		rec.Sample("bubble", map[string]any{"plan": p})
 		return nil
 	}
-	common.Drive(t, rec, func(rt *rapid.T) *Plan { return genPlanC17(rt, false) }, run)
+	common.Drive(t, rec, func(rt *rapid.T) *Plan { return withEdgeChannels(rt, genPlanC17(rt, false)) }, run)
 	completed = true
 }
